@@ -5,18 +5,22 @@
    slice.go, filter.go, find.go, math.go, range.go, shuffle.go and map.go that
    takes a slice or a map, plus heap.FromSlice and heap.Sort (76 constructors,
    listed in notes/C16.md).  [run_call slack c] runs it in a memory [m] (a list
-   of objects: arrays and maps) and yields the references it returns and the
-   memory afterwards, or [None] when Go would panic.  What Go leaves open is
+   of objects: arrays and maps) and yields an outcome (o, m'): o = Some rs — the
+   references it returns (a Go error return is such an answer) — or o = None when
+   Go would panic, and in BOTH cases the memory m' afterwards.  Every theorem
+   below that speaks about the arguments quantifies over o: the arguments are
+   as stated whatever the call returns, error and panic included.  What Go leaves open is
    universally quantified: [slack] (the spare capacity a reallocating append
    leaves), the random numbers of Shuffle (an argument of HShuffle), the
    iteration order of maps (the stored order of the entries of the memory m).
    No validity assumption is made on the descriptors: the statements hold for
    every slice descriptor and map id, including slices with spare capacity,
    offsets, overlapping arguments and the same argument passed twice.
-   Arguments of type [][]T / []map[K]V are slices in the memory as well (cells
-   = codes of the elements, decoded by a function [tbl] that is universally
-   quantified too), so "unchanged" covers the order of their elements and their
-   spare capacity.  Callbacks are Gallina functions, i.e. pure.
+   Arguments of type [][]T / []map[K]V / []any (at every nesting depth) are
+   slices in the memory as well (cells = codes of the elements, decoded by a
+   function [tbl] / [atbl] that is universally quantified too), so "unchanged"
+   covers the order of their elements, their spare capacity and every cell of
+   a nested []any.  Callbacks are Gallina functions, i.e. pure.
 
    The classes of the property's statement are a function [kind_of] of the call:
      KInPlaceS s   Reject, Reverse, heap.FromSlice, heap.Sort          (s: the slice argument)
@@ -41,18 +45,18 @@ Local Open Scope nat_scope.
    since it lives in an object that already exists.  What it returns lives in
    objects allocated by the call (or is empty without capacity, or a plain
    value), except for the views. ---- *)
-Theorem C16_frame : forall slack c m rs m',
+Theorem C16_frame : forall slack c m o m',
   not_in_place c ->
-  run_call slack c m = Some (rs, m') ->
+  run_call slack c m = (o, m') ->
   (exists new_objects, m' = m ++ new_objects) /\
-  (kind_of c = KFresh -> Forall (fresh_ref (length m)) rs).
+  (forall rs, o = Some rs -> kind_of c = KFresh -> Forall (fresh_ref (length m)) rs).
 Proof. exact c16_frame. Qed.
 Print Assumptions C16_frame.
 
 (* the same, object by object and slice by slice *)
-Theorem C16_frame_arrays_and_reads : forall slack c m rs m',
+Theorem C16_frame_arrays_and_reads : forall slack c m o m',
   not_in_place c ->
-  run_call slack c m = Some (rs, m') ->
+  run_call slack c m = (o, m') ->
   (forall id, id < length m -> arr_of m' id = arr_of m id) /\
   (forall s, s_arr s < length m -> read_all m' s = read_all m s) /\
   (forall id, id < length m -> map_of m' id = map_of m id).
@@ -63,20 +67,21 @@ Print Assumptions C16_frame_arrays_and_reads.
    a part of what the argument shows (or is the empty literal);
    FilterMapCollection / Filter2DMapCollection do not write and return (some of)
    the argument maps ---- *)
-Theorem C16_views_never_write : forall slack c s m rs m',
+Theorem C16_views_never_write : forall slack c s m o m',
   kind_of c = KViewS s ->
-  run_call slack c m = Some (rs, m') ->
+  run_call slack c m = (o, m') ->
   m' = m /\
-  Forall (slice_ref (fun r => (s_arr r = s_arr s /\ s_off s <= s_off r /\ s_off r + s_len r <= s_off s + s_len s)
-                              \/ r = empty_slice)) rs.
-Proof. intros slack c s m rs m' Hv Hrun. exact (run_call_view_pure slack c s Hv m rs m' Hrun). Qed.
+  (forall rs, o = Some rs ->
+     Forall (slice_ref (fun r => (s_arr r = s_arr s /\ s_off s <= s_off r /\ s_off r + s_len r <= s_off s + s_len s)
+                                 \/ r = empty_slice)) rs).
+Proof. intros slack c s m o m' Hv Hrun. exact (run_call_view_pure slack c s Hv m o m' Hrun). Qed.
 Print Assumptions C16_views_never_write.
 
-Theorem C16_map_views_never_write : forall slack c W m rs m',
+Theorem C16_map_views_never_write : forall slack c W m o m',
   kind_of c = KViewM W ->
-  run_call slack c m = Some (rs, m') ->
-  m' = m /\ Forall (map_ref W) rs.
-Proof. intros slack c W m rs m' Hv Hrun. exact (run_call_view_maps_pure slack c W Hv m rs m' Hrun). Qed.
+  run_call slack c m = (o, m') ->
+  m' = m /\ (forall rs, o = Some rs -> Forall (map_ref W) rs).
+Proof. intros slack c W m o m' Hv Hrun. exact (run_call_view_maps_pure slack c W Hv m o m' Hrun). Qed.
 Print Assumptions C16_map_views_never_write.
 
 (* ---- 3. in place on a slice: Reject, Reverse, heap.FromSlice, heap.Sort change
@@ -84,20 +89,21 @@ Print Assumptions C16_map_views_never_write.
    argument: no new length for any object, no other object, not the cells
    before the window, not the capacity region behind it.  What they return is a
    prefix window of the argument or (Sort's copy) lives in a new array. ---- *)
-Theorem C16_in_place_only_that_arg : forall slack c s m rs m',
+Theorem C16_in_place_only_that_arg : forall slack c s m o m',
   kind_of c = KInPlaceS s ->
-  run_call slack c m = Some (rs, m') ->
+  run_call slack c m = (o, m') ->
   length m <= length m' /\
   (forall id, id < length m ->
      length (arr_of m' id) = length (arr_of m id) /\
      forall i, ~ (id = s_arr s /\ s_off s <= i < s_off s + s_len s) -> cell m' id i = cell m id i) /\
-  Forall (slice_ref (fun r => (s_arr r = s_arr s /\ s_off r = s_off s /\ s_len r <= s_len s) \/ length m <= s_arr r)) rs.
+  (forall rs, o = Some rs ->
+     Forall (slice_ref (fun r => (s_arr r = s_arr s /\ s_off r = s_off s /\ s_len r <= s_len s) \/ length m <= s_arr r)) rs).
 Proof. exact c16_in_place_only_that_arg. Qed.
 Print Assumptions C16_in_place_only_that_arg.
 
-Theorem C16_in_place_other_arrays_untouched : forall slack c s m rs m' id,
+Theorem C16_in_place_other_arrays_untouched : forall slack c s m o m' id,
   kind_of c = KInPlaceS s ->
-  run_call slack c m = Some (rs, m') ->
+  run_call slack c m = (o, m') ->
   id < length m -> id <> s_arr s -> arr_of m' id = arr_of m id.
 Proof. exact c16_in_place_other_arrays_untouched. Qed.
 Print Assumptions C16_in_place_other_arrays_untouched.
@@ -105,46 +111,48 @@ Print Assumptions C16_in_place_other_arrays_untouched.
 (* ---- 4. in place on a map: Omit, OmitBy (and PartitionMap) leave every object
    other than their argument maps alone — in particular the key slice of Omit
    and the []map argument of PartitionMap — and return those maps ---- *)
-Theorem C16_in_place_maps_only_those : forall slack c W m rs m',
+Theorem C16_in_place_maps_only_those : forall slack c W m o m',
   kind_of c = KInPlaceM W ->
-  run_call slack c m = Some (rs, m') ->
+  run_call slack c m = (o, m') ->
   length m <= length m' /\
   (forall id, id < length m -> ~ W id -> arr_of m' id = arr_of m id) /\
-  Forall (map_ref W) rs.
+  (forall rs, o = Some rs -> Forall (map_ref W) rs).
 Proof. exact c16_in_place_maps_only_those. Qed.
 Print Assumptions C16_in_place_maps_only_those.
 
 (* 4b. Omit / OmitBy return the argument map, only ever remove entries from it,
    and change no other object at all *)
-Theorem C16_omit_only_removes : forall slack coll keys m rs m',
+Theorem C16_omit_only_removes : forall slack coll keys m o m',
   coll < length m ->
-  run_call slack (HOmit coll keys) m = Some (rs, m') ->
-  rs = [RM coll] /\ length m' = length m /\ incl (map_of m' coll) (map_of m coll) /\
-  (forall id, id <> coll -> arr_of m' id = arr_of m id).
+  run_call slack (HOmit coll keys) m = (o, m') ->
+  length m' = length m /\ incl (map_of m' coll) (map_of m coll) /\
+  (forall id, id <> coll -> arr_of m' id = arr_of m id) /\
+  (forall rs, o = Some rs -> rs = [RM coll]).
 Proof. exact c16_omit_only_removes. Qed.
 Print Assumptions C16_omit_only_removes.
 
-Theorem C16_omit_by_only_removes : forall slack fn coll m rs m',
+Theorem C16_omit_by_only_removes : forall slack fn coll m o m',
   coll < length m ->
-  run_call slack (HOmitBy fn coll) m = Some (rs, m') ->
-  rs = [RM coll] /\ length m' = length m /\ incl (map_of m' coll) (map_of m coll) /\
-  (forall id, id <> coll -> arr_of m' id = arr_of m id).
+  run_call slack (HOmitBy fn coll) m = (o, m') ->
+  length m' = length m /\ incl (map_of m' coll) (map_of m coll) /\
+  (forall id, id <> coll -> arr_of m' id = arr_of m id) /\
+  (forall rs, o = Some rs -> rs = [RM coll]).
 Proof. exact c16_omit_by_only_removes. Qed.
 Print Assumptions C16_omit_by_only_removes.
 
 (* 4c. PartitionMap assigns m[k] = v with the entry it has just read: when the
    codes of its argument stand for maps the memory is unchanged, and the maps
    are routed by reference *)
-Theorem C16_partition_map_writes_nothing : forall slack fn mtbl ms m rs m',
+Theorem C16_partition_map_writes_nothing : forall slack fn mtbl ms m o m',
   (forall c, is_map m (mtbl c)) ->
-  run_call slack (HPartitionMap fn mtbl ms) m = Some (rs, m') ->
-  m' = m /\ Forall (map_ref (image mtbl)) rs.
+  run_call slack (HPartitionMap fn mtbl ms) m = (o, m') ->
+  m' = m /\ (forall rs, o = Some rs -> Forall (map_ref (image mtbl)) rs).
 Proof. exact c16_partition_map_writes_nothing. Qed.
 Print Assumptions C16_partition_map_writes_nothing.
 
 (* ---- 5. a result, once returned, is not altered by a later call on the same
    arguments.  c1 builds its result in fresh storage and runs in m0, c2 (ANY
-   helper) afterwards; if c2 is in-place, its target existed before c1 (it is
+   helper, returning, failing or panicking) afterwards; if c2 is in-place, its target existed before c1 (it is
    an argument the two calls can share: [target_older_than]).  Then every
    result r of c1 reads the same after c2.  (Views of an argument — results of
    Drop, Chunk, Reject, Reverse, FromSlice, the map collections — follow the
@@ -152,9 +160,9 @@ Print Assumptions C16_partition_map_writes_nothing.
 (* side condition [names_existing]: r names an object that exists when c1
    returns (or is empty) — true of every reference a helper returns; without it
    a made-up descriptor could name an object that c2 is about to allocate *)
-Theorem C16_earlier_results_survive : forall slack c1 c2 m0 rs1 m1 rs2 m2 r,
-  run_call slack c1 m0 = Some (rs1, m1) ->
-  run_call slack c2 m1 = Some (rs2, m2) ->
+Theorem C16_earlier_results_survive : forall slack c1 c2 m0 rs1 m1 o2 m2 r,
+  run_call slack c1 m0 = (Some rs1, m1) ->
+  run_call slack c2 m1 = (o2, m2) ->
   kind_of c1 = KFresh -> In r rs1 -> names_existing m1 r ->
   target_older_than (length m0) c2 ->
   read_ref m2 r = read_ref m1 r.
@@ -163,9 +171,9 @@ Print Assumptions C16_earlier_results_survive.
 
 (* arguments (and views of them) after a later non-in-place call: the complete
    backing array is the same, so is everything any slice into it shows *)
-Theorem C16_arguments_survive : forall slack c m rs m' s,
+Theorem C16_arguments_survive : forall slack c m o m' s,
   not_in_place c ->
-  run_call slack c m = Some (rs, m') ->
+  run_call slack c m = (o, m') ->
   s_arr s < length m ->
   arr_of m' (s_arr s) = arr_of m (s_arr s) /\ read_all m' s = read_all m s.
 Proof. exact c16_arguments_survive. Qed.
@@ -178,8 +186,8 @@ Print Assumptions C16_arguments_survive.
    commit 05f8f46 and [merge_go] is the repaired function.) ---- *)
 Theorem C16_merge_asfound_refuted :
   exists (m0 : mem) (s p1 p2 : slice) r1 m1 r2 m2,
-    merge_asfound go_slack s [p1] m0 = Some (r1, m1) /\
-    merge_asfound go_slack s [p2] m1 = Some (r2, m2) /\
+    merge_asfound go_slack s [p1] m0 = (Some r1, m1) /\
+    merge_asfound go_slack s [p2] m1 = (Some r2, m2) /\
     read_all m1 r1 = [5; 6; 1]%Z /\ read_all m2 r1 = [5; 6; 2]%Z /\
     arr_of m1 0 <> arr_of m0 0.
 Proof.
@@ -193,8 +201,8 @@ Example C16_merge_repaired_example :
   exists r1 m1 r2 m2,
     (* objects 1, 2: the parameters [1] and [2]; object 3: the two one-element parameter lists, as codes *)
     let tbl := fun c : Z => mkSlice (Z.to_nat c) 0 1 1 in
-    run_call go_slack (HMerge (mkSlice 0 0 2 4) tbl (mkSlice 3 0 1 1)) [[5; 6; -1; -2]%Z; [1%Z]; [2%Z]; [1; 2]%Z] = Some ([rs r1], m1) /\
-    run_call go_slack (HMerge (mkSlice 0 0 2 4) tbl (mkSlice 3 1 1 1)) m1 = Some ([rs r2], m2) /\
+    run_call go_slack (HMerge (mkSlice 0 0 2 4) tbl (mkSlice 3 0 1 1)) [[5; 6; -1; -2]%Z; [1%Z]; [2%Z]; [1; 2]%Z] = (Some [rs r1], m1) /\
+    run_call go_slack (HMerge (mkSlice 0 0 2 4) tbl (mkSlice 3 1 1 1)) m1 = (Some [rs r2], m2) /\
     read_all m1 r1 = [5; 6; 1]%Z /\ read_all m2 r1 = [5; 6; 1]%Z /\ read_all m2 r2 = [5; 6; 2]%Z /\
     arr_of m2 0 = [5; 6; -1; -2]%Z.
 Proof. vm_compute. do 4 eexists. repeat split; reflexivity. Qed.
@@ -203,7 +211,7 @@ Proof. vm_compute. do 4 eexists. repeat split; reflexivity. Qed.
    mutant) overwrites its argument, so it does not satisfy [C16_frame] *)
 Theorem C16_filter_on_arg_refuted :
   exists (m : mem) (s : slice) r m',
-    filter_on_arg go_slack (fun x => Z.even x) s m = Some (r, m') /\ arr_of m' 0 <> arr_of m 0.
+    filter_on_arg go_slack (fun x => Z.even x) s m = (Some r, m') /\ arr_of m' 0 <> arr_of m 0.
 Proof.
   exists [[1; 2; 3; 4]%Z], (mkSlice 0 0 4 4). vm_compute. do 2 eexists. split; [reflexivity|discriminate].
 Qed.
@@ -215,8 +223,8 @@ Print Assumptions C16_filter_on_arg_refuted.
    whereas the transcription of the real Pick leaves it alone *)
 Theorem C16_pick_swap_remove_refuted :
   exists (m : mem) (keys : slice) r m',
-    pick_swap_remove 0 keys m = Some (r, m') /\ arr_of m' 1 <> arr_of m 1 /\
-    exists rs m'', run_call go_slack (HPick 0 keys) m = Some (rs, m'') /\ arr_of m'' 1 = arr_of m 1.
+    pick_swap_remove 0 keys m = (Some r, m') /\ arr_of m' 1 <> arr_of m 1 /\
+    exists rs m'', run_call go_slack (HPick 0 keys) m = (Some rs, m'') /\ arr_of m'' 1 = arr_of m 1.
 Proof.
   exists [[0; 5]%Z; [-1; 0; 9; -2]%Z], (mkSlice 1 1 2 3). vm_compute. do 2 eexists.
   split; [reflexivity|]. split; [discriminate|]. do 2 eexists. split; reflexivity.
@@ -230,8 +238,8 @@ Print Assumptions C16_pick_swap_remove_refuted.
 Theorem C16_intersection_reordering_refuted :
   let tbl := fun c : Z => mkSlice (Z.to_nat c) 0 2 2 in
   exists (m : mem) (params : slice) r m',
-    intersection_reordering go_slack tbl params m = Some (r, m') /\ arr_of m' 3 <> arr_of m 3 /\
-    exists rs m'', run_call go_slack (HIntersection tbl params) m = Some (rs, m'') /\ arr_of m'' 3 = arr_of m 3
+    intersection_reordering go_slack tbl params m = (Some r, m') /\ arr_of m' 3 <> arr_of m 3 /\
+    exists rs m'', run_call go_slack (HIntersection tbl params) m = (Some rs, m'') /\ arr_of m'' 3 = arr_of m 3
                    /\ map (read_ref m'') rs = [[2]]%Z.
 Proof.
   exists [[1; 2]%Z; [2; 3]%Z; [2; 1]%Z; [0; 1; 2]%Z], (mkSlice 3 0 3 3). vm_compute. do 2 eexists.
@@ -239,25 +247,55 @@ Proof.
 Qed.
 Print Assumptions C16_intersection_reordering_refuted.
 
+(* the theorems discriminate (4): the seeded change C16-6 — a baseFlatten that detaches each []any element
+   while it visits it and puts it back afterwards, except on the error path.  Object 1 is the caller's
+   []any{s, "x"} (codes 0 = the slice in object 0, 9 = a value of another type, 8 = nil): the FAILING call
+   leaves nil where the bad element was; the transcription of the real Flatten fails too and leaves the
+   caller's []any alone (an instance of C16_frame with an error outcome) *)
+Theorem C16_flatten_detaching_refuted :
+  let atbl := fun c : Z => if (c =? 0)%Z then ASlice (mkSlice 0 0 2 2) else ABad in
+  exists (m : mem) (l : slice) m',
+    base_flatten_detaching go_slack 8 5 atbl empty_slice (AList l) m = (Some None, m') /\ arr_of m' 1 <> arr_of m 1 /\
+    exists m'', run_call go_slack (HFlatten 5 atbl (AList l)) m = (Some [rs empty_slice], m'') /\ arr_of m'' 1 = arr_of m 1.
+Proof.
+  exists [[1; 2]%Z; [0; 9]%Z], (mkSlice 1 0 2 2). vm_compute. eexists.
+  split; [reflexivity|]. split; [discriminate|]. eexists. split; reflexivity.
+Qed.
+Print Assumptions C16_flatten_detaching_refuted.
+
+(* non-vacuity of the failure outcomes: calls that PANIC (o = None) or return an error do occur, and the
+   memory afterwards is what the theorems say — Zip on ragged input panics after it has allocated one
+   result row (the arguments, objects 0-2, are untouched); SliceToMap on unequal lengths panics; Mean of an
+   empty slice panics; Nth out of range and Range with a zero step return errors *)
+Example C16_failing_calls :
+  let m := [[1; 2]%Z; [3%Z]; [0; 1]%Z] in
+  let tbl := fun c : Z => if (c =? 0)%Z then mkSlice 0 0 2 2 else mkSlice 1 0 1 1 in
+  (exists m', run_call go_slack (HZip tbl (mkSlice 2 0 2 2)) m = (None, m') /\ firstn 3 m' = m /\ length m' = 4) /\
+  run_call go_slack (HSliceToMap (mkSlice 0 0 2 2) (mkSlice 1 0 1 1)) m = (None, m ++ [[]]) /\
+  run_call go_slack (HMean (mkSlice 0 0 0 2)) m = (None, m) /\
+  run_call go_slack (HNth (mkSlice 0 0 2 2) 5) m = (Some [RV [0; 1]%Z], m) /\
+  run_call go_slack (HRange (mkSlice 2 0 3 3)) [[1; 2]%Z; [3%Z]; [0; 0; 5]%Z] = (Some [rs empty_slice], [[1; 2]%Z; [3%Z]; [0; 0; 5]%Z]).
+Proof. vm_compute. repeat split. eexists. repeat split. Qed.
+
 (* non-vacuity: the calls do return on ordinary arguments — an in-place one, a
    view, builders, a scalar, map helpers with a key slice inside a backing
    array (object 0: a slice with offset 1 and spare capacity 2; object 1: the
    map {1: 7, 3: 8}) *)
 Example C16_calls_return :
   let m := [[-1; 3; 1; 2; -2; -3]%Z; [1; 7; 3; 8]%Z] in let s := mkSlice 0 1 3 5 in
-  (exists rs m', run_call go_slack (HSort Z.ltb s) m = Some (rs, m') /\ arr_of m' 0 = [-1; 3; 2; 1; -2; -3]%Z) /\
-  (exists rs, run_call go_slack (HChunk s 2) m = Some (rs, m) /\ map (read_ref m) rs = [[3; 1]; [2]]%Z) /\
-  (exists r m', run_call go_slack (HReject Z.even s) m = Some ([r], m') /\ read_ref m' r = [3; 1]%Z
+  (exists rs m', run_call go_slack (HSort Z.ltb s) m = (Some rs, m') /\ arr_of m' 0 = [-1; 3; 2; 1; -2; -3]%Z) /\
+  (exists rs, run_call go_slack (HChunk s 2) m = (Some rs, m) /\ map (read_ref m) rs = [[3; 1]; [2]]%Z) /\
+  (exists r m', run_call go_slack (HReject Z.even s) m = (Some [r], m') /\ read_ref m' r = [3; 1]%Z
                 /\ arr_of m' 0 = [-1; 3; 1; 2; -2; -3]%Z) /\
-  (exists r m', run_call go_slack (HUnique (mkSlice 0 0 6 6)) m = Some ([r], m') /\ read_ref m' r = [-1; 3; 1; 2; -2; -3]%Z) /\
-  (exists rs m', run_call go_slack (HGroupBy (fun v => Z.rem v 2) s) m = Some (rs, m')
+  (exists r m', run_call go_slack (HUnique (mkSlice 0 0 6 6)) m = (Some [r], m') /\ read_ref m' r = [-1; 3; 1; 2; -2; -3]%Z) /\
+  (exists rs m', run_call go_slack (HGroupBy (fun v => Z.rem v 2) s) m = (Some rs, m')
                  /\ map (read_ref m') rs = [[1; 3; 1]; [0; 2]]%Z /\ firstn 2 m' = m) /\
-  (exists m', run_call go_slack (HSum s) m = Some ([RV [6%Z]], m') /\ m' = m) /\
-  (exists r m', run_call go_slack (HPick 1 s) m = Some ([r], m') /\ read_ref m' r = [1; 7; 3; 8]%Z /\ firstn 2 m' = m) /\
-  (exists m', run_call go_slack (HOmit 1 s) m = Some ([RM 1], m') /\ m' = [[-1; 3; 1; 2; -2; -3]%Z; []]) /\
-  (exists rs m', run_call go_slack (HShuffle [2; 0; 0] s) m = Some (rs, m') /\ map (read_ref m') rs = [[1; 3; 2]]%Z
+  (exists m', run_call go_slack (HSum s) m = (Some [RV [6%Z]], m') /\ m' = m) /\
+  (exists r m', run_call go_slack (HPick 1 s) m = (Some [r], m') /\ read_ref m' r = [1; 7; 3; 8]%Z /\ firstn 2 m' = m) /\
+  (exists m', run_call go_slack (HOmit 1 s) m = (Some [RM 1], m') /\ m' = [[-1; 3; 1; 2; -2; -3]%Z; []]) /\
+  (exists rs m', run_call go_slack (HShuffle [2; 0; 0] s) m = (Some rs, m') /\ map (read_ref m') rs = [[1; 3; 2]]%Z
                  /\ firstn 2 m' = m) /\
   (* a []map argument: the slice s[0:2] = [3; 1] read as codes, every code standing for map 1 *)
-  (exists rs m', run_call go_slack (HPartitionMap (fun a => (2 <=? Z.of_nat (length a))%Z) (fun _ => 1) (mkSlice 0 1 2 2)) m = Some (rs, m')
+  (exists rs m', run_call go_slack (HPartitionMap (fun a => (2 <=? Z.of_nat (length a))%Z) (fun _ => 1) (mkSlice 0 1 2 2)) m = (Some rs, m')
                  /\ rs = [RM 1; RM 1] /\ m' = m /\ is_map m 1).
 Proof. vm_compute. repeat split; repeat eexists. Qed.
